@@ -276,6 +276,7 @@ let run_lsp (x : Sexp.t) : string =
 
 let run mode (line : string) : string =
   if mode = "pos" then Drv_pos.run line else
+  if mode = "pvm" then Drv_pvm.run line else
   let x = parse line in
   match mode with
   | "climb" ->
